@@ -168,3 +168,28 @@ template <class A, class B> struct auv_sub<A, B, au::stdx::void_t<decltype(std::
             ctx.fail("C19: a trait / decltype question reports ZERO as acceptable where a quantity point is required (or refuses the Quantity twin) [%s]: %s" % (core.cfg_name(it[2]), v.cr.first_error()),
                      {"mode": "syntax", "expect": "ok", "src": v.src, "cfg": list(it[2])})
     ctx.bump("trait_blocks", len(titems))
+    # "it also converts to 0 of every arithmetic type and every chrono duration": every fundamental arithmetic type (not only the 11 reps), by trait and by value
+    ARITH = ["bool", "char", "signed char", "unsigned char", "wchar_t", "char16_t", "char32_t", "short", "unsigned short", "int", "unsigned int", "long", "unsigned long",
+             "long long", "unsigned long long", "float", "double", "long double"]
+    CHRONO = ["std::chrono::nanoseconds", "std::chrono::hours", "std::chrono::duration<double>", "std::chrono::duration<float, std::ratio<1, 3>>",
+              "std::chrono::duration<std::uint8_t, std::ratio<7, 11>>", "std::chrono::duration<long double, std::ratio<1000000007, 998244353>>"]
+    aitems = []
+    for cfg in core.CONFIGS:
+        b = "".join('static_assert(std::is_convertible<Zero, %s>::value, "is_convertible<Zero, %s>");\n'
+                    'static_assert(static_cast<%s>(ZERO) == static_cast<%s>(0), "static_cast<%s>(ZERO) == 0");\n'
+                    'constexpr %s auv_z%d = ZERO; static_assert(auv_z%d == static_cast<%s>(0), "%s x = ZERO; x == 0");\n' % (t, t, t, t, t, t, k, k, t, t)
+                    for k, t in enumerate(ARITH))
+        b += "".join('static_assert(std::is_convertible<Zero, %s>::value, "is_convertible<Zero, %s>");\n'
+                     'constexpr %s auv_d%d = ZERO; static_assert(auv_d%d.count() == 0, "%s d = ZERO; d.count() == 0");\n' % (t, t, t, k, k, t)
+                     for k, t in enumerate(CHRONO))
+        aitems.append((NEG_PRELUDE + "#include <chrono>\n#include <ratio>\n#include <type_traits>\n", b, cfg))
+    for it, v in zip(aitems, progs.judge_positive(ctx, aitems, group=1, tag="c19arith")):
+        ctx.count(3 * len(ARITH) + 2 * len(CHRONO))
+        if v.ok:
+            ctx.nontrivial(("arith", core.cfg_name(it[2])))
+        elif v.inconclusive:
+            ctx.inconclusive += 1
+        else:
+            ctx.fail("C19: ZERO does not convert to 0 of some arithmetic type / chrono duration [%s]: %s" % (core.cfg_name(it[2]), v.cr.first_error()),
+                     {"mode": "syntax", "expect": "ok", "src": v.src, "cfg": list(it[2])})
+    ctx.bump("arithmetic_conversion_blocks", len(aitems))
